@@ -1,7 +1,9 @@
 """Which properties are claimed in MANIFEST.json, with the words that go there."""
 TB = ("Trusted: Coq kernel (coqc, full .vo), no axioms (Print Assumptions = closed for every theorem); the hand-written model "
-      "is tied to the code only by the correspondence check (harness + extracted model on the same cases), so assurance is "
-      "bounded by that check's generators; extraction with ExtrOcamlBasic; std/Vec/ptr semantics are modelled, not verified.")
+      "is tied to the code by the correspondence check (harness + extracted model on the same cases), so assurance is "
+      "bounded by that check's generators, and - for 43 functions: the loop-free integer/decision kernel and the pointer-level iterator state machines of iter_mut.rs - by the rs2v translator "
+      "(regenerated from the source on every run, each proved equal to the model's kernel function; translator trusted); "
+      "extraction with ExtrOcamlBasic; std/Vec/ptr semantics are modelled, not verified.")
 CLAIMED = {
     'C04': ("Rocq theorems on the index kernel model + differential correspondence",
             "For all coherent matrices, all usize pairs and all accessor streams (stateful index types): get/get_mut/[] are exact, "
@@ -32,8 +34,8 @@ CLAIMED.update({
     'C10': ("Rocq proofs of the three swaps on the list model + differential correspondence (incl. huge zero-sized matrices)",
             "swap_rows/swap_cols on the executable model (contiguous swap_nonoverlapping path with its disjointness precondition, strided ptr::swap loop) exchange exactly the named vectors for every "
             "pair of usize values, both orders, equal indices included, never UB, IndexOutOfBounds otherwise; element swap on resolved positions. Proving 'no addition overflows' exposed finding F5 "
-            "(fixed in /repo); the old loop is kept in the model and refuted by a witness.",
-            TB + " Permutation (no clone/drop) is proved for transpose and the element swap; for the vector swaps it is observed by the harness ledger, not proved.", "DESIGN §7 C10"),
+            "(fixed in /repo); the old loop is kept in the model and refuted by a witness. The element store after a vector swap is a permutation of the one before.",
+            TB + " That the swaps only move elements is proved as Permutation of the element store (C10_swaps_move_only; transpose: C05_moves_only); ownership itself (no clone/drop calls) is observed by the harness ledger.", "DESIGN §7 C10"),
     'C14': ("Rocq proof of both overwrite paths on the list model + differential correspondence",
             "overwrite of the executable model (unchecked sub-slices and clone_from_slice for equal orders; zip with skip/step_by for different orders) is proved to copy exactly the overlapping "
             "top-left block for every pair of coherent shapes and all four order combinations, leaving the rest of dest, its shape and order unchanged, with every unchecked range inside both buffers.",
